@@ -36,3 +36,46 @@ theorem cut1_lt_cut2 : (cut1 : ℝ) < cut2 := by
   norm_num
 
 end Bpp.PNorm
+
+namespace Bpp.PNorm
+open Bpp Bpp.Scalar
+
+/-! ### `pNorm` at `ℝ`: branch structure -/
+
+theorem pNorm_real (ex tr : ℝ → ℝ) (x : ℝ) :
+    pNorm ex tr x =
+      if |x| ≤ cut1 then central x
+      else if |x| ≤ cut2 then middle ex tr x
+      else if -lowCut < x ∧ x < upCut then far ex tr x
+      else if 0 < x then 1 else 0 := by
+  simp [pNorm]
+
+theorem middle_real (ex tr : ℝ → ℝ) (x : ℝ) :
+    middle ex tr x = if 0 < x then 1 - middleTail ex tr |x| else middleTail ex tr |x| := by
+  simp [middle]
+
+theorem far_real (ex tr : ℝ → ℝ) (x : ℝ) :
+    far ex tr x = if 0 < x then 1 - farTail ex tr x else farTail ex tr x := by
+  simp [far]
+
+/-- `temp` of the first range -/
+noncomputable def centralTemp (x : ℝ) : ℝ :=
+  x * ((if eps < |x| then cNum (x * x) else 0) + a3) / ((if eps < |x| then cDen (x * x) else 0) + b3)
+
+theorem central_real (x : ℝ) : central x = 1 / 2 + centralTemp x := by
+  simp [central, centralTemp]
+
+theorem centralTemp_neg (x : ℝ) : centralTemp (-x) = -centralTemp x := by
+  simp only [centralTemp, abs_neg, neg_mul_neg]
+  ring
+
+theorem tailTemp_neg (x : ℝ) : tailTemp (-x) = tailTemp x := by
+  simp [tailTemp]
+
+/-- with an odd `trunc` the far-tail formula is even in `x` -/
+theorem farTail_neg (ex tr : ℝ → ℝ) (htr : ∀ z, tr (-z) = -tr z) (x : ℝ) :
+    farTail ex tr (-x) = farTail ex tr x := by
+  simp only [farTail, tailTemp_neg, neg_mul, htr]
+  congr 3 <;> ring
+
+end Bpp.PNorm
